@@ -22,6 +22,18 @@
 (*   Buffered         the per-request channel has capacity 1               *)
 (*   TrySend          (Buffered only) the send is `select{case ch<-r: default:}`*)
 (* Today's code: FALSE / TRUE / FALSE / FALSE.                             *)
+(*   SendUnderLock    (RegisterFirst only) the requester keeps resMu from   *)
+(*                    the registration until mp.send returned              *)
+(*                                                                         *)
+(* Stall is the set of calls whose network send does not complete inside   *)
+(* the horizon of a behaviour (the peer accepts the TCP connection and     *)
+(* never speaks, a black-holed address): such a call stays in its send     *)
+(* step.  It counts as blocked in the ENVIRONMENT - the layer must not be   *)
+(* blocked by it (NoDeadlock quantifies over the other calls).             *)
+(* CanGiveUp is the set of calls whose ctx carries a deadline: after a     *)
+(* timed-out attempt such a call may return "timeout" without using the    *)
+(* whole retry budget (the statement says "within its timeout and retry    *)
+(* budget", it does not demand that the budget is exhausted).              *)
 (*                                                                         *)
 (* The requester's critical sections (register, unregister) contain no     *)
 (* blocking operation and touch only `reg`, so each is one atomic action   *)
@@ -35,9 +47,13 @@ CONSTANTS Calls,            \* concurrent RequestFrom calls
           DupBudget,        \* total number of duplicates in a behaviour
           CanCancel,        \* calls whose ctx may be cancelled
           CanFail,          \* calls whose send may fail (stream error)
-          RegisterFirst, DeliverUnderLock, Buffered, TrySend
+          RegisterFirst, DeliverUnderLock, Buffered, TrySend,
+          SendUnderLock,    \* shape: resMu is kept across mp.send
+          Stall,            \* calls whose send blocks in the network for the whole behaviour
+          CanGiveUp         \* calls that may return "timeout" before the retry budget is used up
 
 ASSUME TrySend => Buffered
+ASSUME SendUnderLock => RegisterFirst
 
 Ids   == Calls \X (0..MaxRetry)            \* message ids
 Resps == Calls \X (0..MaxRetry) \X (0..MaxDup)   \* response instances <<c, k, d>>
@@ -58,6 +74,10 @@ vars == <<pc, att, reg, lock, net, chanBuf, rpc, result, got, dups>>
 
 Cur(c) == <<c, att[c]>>
 Free == lock = NoId
+\* lock token of a requester that keeps resMu across its send (never a response instance: third component -1)
+ReqTok(c) == <<c, att[c], -1>>
+ReqToks == Calls \X (0..MaxRetry) \X {-1}
+SendPc == IF RegisterFirst THEN "registered" ELSE "start"
 
 Init == /\ pc = [c \in Calls |-> "start"] /\ att = [c \in Calls |-> 0]
         /\ reg = {} /\ lock = NoId /\ net = {} /\ chanBuf = {}
@@ -66,25 +86,29 @@ Init == /\ pc = [c \in Calls |-> "start"] /\ att = [c \in Calls |-> 0]
 
 (* ------------------------------ requester ------------------------------ *)
 Send(c) ==
-  /\ pc[c] = (IF RegisterFirst THEN "registered" ELSE "start")
+  /\ c \notin Stall
+  /\ pc[c] = SendPc
   /\ net' = net \cup {<<c, att[c], 0>>}
   /\ pc' = [pc EXCEPT ![c] = IF RegisterFirst THEN "waiting" ELSE "sent"]
-  /\ UNCHANGED <<att, reg, lock, chanBuf, rpc, result, got, dups>>
+  /\ lock' = (IF lock = ReqTok(c) THEN NoId ELSE lock)
+  /\ UNCHANGED <<att, reg, chanBuf, rpc, result, got, dups>>
 
 \* mp.send returns an error (no stream, ctx cancelled while sending): the call returns the error
 SendFail(c) ==
-  /\ c \in CanFail
-  /\ pc[c] = (IF RegisterFirst THEN "registered" ELSE "start")
+  /\ c \in CanFail /\ c \notin Stall
+  /\ pc[c] = SendPc
   /\ pc' = [pc EXCEPT ![c] = IF RegisterFirst THEN "failed" ELSE "done"]
   /\ result' = [result EXCEPT ![c] = "error"]
-  /\ UNCHANGED <<att, reg, lock, net, chanBuf, rpc, got, dups>>
+  /\ lock' = (IF lock = ReqTok(c) THEN NoId ELSE lock)
+  /\ UNCHANGED <<att, reg, net, chanBuf, rpc, got, dups>>
 
 Register(c) ==
   /\ pc[c] = (IF RegisterFirst THEN "start" ELSE "sent")
   /\ Free
   /\ reg' = reg \cup {Cur(c)}
   /\ pc' = [pc EXCEPT ![c] = IF RegisterFirst THEN "registered" ELSE "waiting"]
-  /\ UNCHANGED <<att, lock, net, chanBuf, rpc, result, got, dups>>
+  /\ lock' = (IF SendUnderLock THEN ReqTok(c) ELSE lock)     \* kept until Send / SendFail
+  /\ UNCHANGED <<att, net, chanBuf, rpc, result, got, dups>>
 
 \* select: receive - rendezvous with an onResponse blocked in the send, or take the buffered value
 Recv(c) ==
@@ -119,10 +143,11 @@ Unreg(c) ==
   /\ Free
   /\ reg' = reg \ {Cur(c)}
   /\ chanBuf' = chanBuf \ {Cur(c)}      \* the channel is unreachable from now on (garbage)
-  /\ IF pc[c] = "timedout" /\ att[c] < MaxRetry
-     THEN /\ pc' = [pc EXCEPT ![c] = "start"] /\ att' = [att EXCEPT ![c] = @ + 1] /\ UNCHANGED result
-     ELSE /\ pc' = [pc EXCEPT ![c] = "done"] /\ UNCHANGED att
-          /\ result' = [result EXCEPT ![c] = IF pc[c] = "timedout" THEN "timeout" ELSE @]
+  /\ \/ /\ pc[c] = "timedout" /\ att[c] < MaxRetry
+        /\ pc' = [pc EXCEPT ![c] = "start"] /\ att' = [att EXCEPT ![c] = @ + 1] /\ UNCHANGED result
+     \/ /\ ~(pc[c] = "timedout" /\ att[c] < MaxRetry) \/ c \in CanGiveUp   \* a deadline that cannot cover another attempt
+        /\ pc' = [pc EXCEPT ![c] = "done"] /\ UNCHANGED att
+        /\ result' = [result EXCEPT ![c] = IF pc[c] = "timedout" THEN "timeout" ELSE @]
   /\ UNCHANGED <<lock, net, rpc, got, dups>>
 
 (* ---------------- onResponse on the requesting host, per response instance ---------------- *)
@@ -187,11 +212,13 @@ TypeOK ==
   /\ pc \in [Calls -> {"start", "sent", "registered", "waiting", "got", "timedout", "cancelled", "failed", "done"}]
   /\ att \in [Calls -> 0..MaxRetry]
   /\ reg \subseteq Ids /\ net \subseteq Resps /\ chanBuf \subseteq Ids
-  /\ lock \in Resps \cup {NoId}
+  /\ lock \in Resps \cup {NoId} \cup ReqToks
   /\ rpc \in [Resps -> {"idle", "wantlock", "locked", "sending", "sent", "done", "miss"}]
   /\ result \in [Calls -> {"none", "resp", "timeout", "cancel", "error"}]
 
-CallsDone == \A c \in Calls : pc[c] = "done"
+\* a stalled call sits in its send step for ever: blocked in the environment, not in the layer
+Blocked(c) == c \in Stall /\ pc[c] = SendPc
+CallsDone == \A c \in Calls : pc[c] = "done" \/ Blocked(c)
 AllDone == CallsDone /\ \A r \in Resps : rpc[r] \in {"idle", "done", "miss"}
 
 \* no goroutine of the layer is blocked for ever: whenever something is unfinished a step is possible
@@ -205,13 +232,18 @@ NoLostReply ==
 Correlated == \A c \in Calls : result[c] = "resp" => got[c] = Cur(c)
 
 \* nothing stays registered when every call has returned
-NoLeak == CallsDone => reg = {}
+NoLeak == CallsDone => reg \subseteq {Cur(c) : c \in {x \in Calls : Blocked(x)}}
 
 \* a returned call has a definite result; a timeout only after the whole retry budget
 ResultSane == \A c \in Calls : pc[c] = "done" => /\ result[c] # "none"
-                                                  /\ (result[c] = "timeout" => att[c] = MaxRetry)
+                                                  /\ (result[c] = "timeout" => att[c] = MaxRetry \/ c \in CanGiveUp)
+
+\* (trace level) h = ids for which the remote handler returned and its reply was handed to the responder's layer: a reply
+\* that is still in flight when everything is quiescent never reached the lookup of the requesting host - it was lost on
+\* the way (responder's respond / requester's onResponse prefix: read, decode, procedure check, rate limit)
+Vanished(h) == {id \in h : <<id[1], id[2], 0>> \in net}
 
 \* liveness (under weak fairness, no state constraint): every call returns, every onResponse finishes
 Terminates == <>[]AllDone
-EveryCallReturns == \A c \in Calls : <>(pc[c] = "done")
+EveryCallReturns == \A c \in Calls \ Stall : <>(pc[c] = "done")
 =============================================================================
